@@ -1,5 +1,6 @@
 import CedarVerif.Lemmas.TypecheckSound
 import CedarVerif.Lemmas.TypecheckSound2
+import CedarVerif.Lemmas.TypecheckPolicy
 import CedarVerif.Thm.C11
 /-
 C03 — strict validation is sound (and not vacuous).
@@ -297,6 +298,49 @@ example : checkEnv .strict exSchema exEnv
     (.and (.or (.hasAttr principal "active") (.hasAttr context "level")) (.lit (.bool true))) = some .tt := by decide +kernel
 
 
+/-- POLICY LEVEL (policies and templates): if the strict typechecker accepts the condition in every request environment
+(`checkPolicy … = some vs`, `accepted vs`), then in every world whose request environment is one of them, evaluation
+yields a boolean or fails with an entity / overflow / extension error only. -/
+theorem strict_validation_sound (s : Schema) (pu ru : SlotUse) (cond : Expr) (vs : List (RequestEnv × Verdict))
+    (w : World) (env : RequestEnv)
+    (hWF : SchemaWF2 s) (hmem : env ∈ s.envs pu ru) (henv : EnvMatches s env w.q) (hreq : ConformsRequest s w.q)
+    (hst : StoreConforms s w.es) (hact : ActionsPresent s w.es) (hsl : SlotsMatch env w.sl)
+    (hf : InFragment2 env cond = true)
+    (hcp : checkPolicy .strict s pu ru cond = some vs) (hacc : accepted vs = true) :
+    (∃ b, w.eval cond = .ok (.prim (.bool b))) ∨ (∃ err, w.eval cond = .error err ∧ Permitted err) := by
+  obtain ⟨v, hv, hvm⟩ := checkPolicy_mem hcp hmem
+  have hne : v ≠ .fail := by
+    have := List.all_eq_true.mp hacc _ hvm
+    simpa using this
+  exact accepted_boolean_or_permitted_error2 s env w hWF henv hreq hst hact hsl cond hf v hv hne
+
+/-- POLICY LEVEL (static policies): a slot-free condition accepted by the strict typechecker evaluates, on EVERY conformant
+request and store, to a boolean or fails with a permitted error — the request's environment is among those typechecked
+(`conformant_request_env`). -/
+theorem strict_validation_sound_static (s : Schema) (cond : Expr) (vs : List (RequestEnv × Verdict)) (w : World)
+    (hWF : SchemaWF2 s) (hreq : ConformsRequest s w.q) (hst : StoreConforms s w.es) (hact : ActionsPresent s w.es)
+    (hf : ∀ env, InFragment2 env cond = true)
+    (hcp : checkPolicy .strict s .absent .absent cond = some vs) (hacc : accepted vs = true) :
+    (∃ b, w.eval cond = .ok (.prim (.bool b))) ∨ (∃ err, w.eval cond = .error err ∧ Permitted err) := by
+  obtain ⟨env, hmem, henv, hp, hr⟩ := conformant_request_env hreq
+  have hsl : SlotsMatch env w.sl := ⟨fun t ht => (by rw [hp] at ht; cases ht), fun t ht => (by rw [hr] at ht; cases ht)⟩
+  exact strict_validation_sound s .absent .absent cond vs w env hWF hmem henv hreq hst hact hsl (hf env) hcp hacc
+
+/-- POLICY LEVEL: a static policy flagged impossible (every environment typed `False`) is satisfied by no conformant request -/
+theorem impossible_policy_never_satisfied_static (s : Schema) (cond : Expr) (vs : List (RequestEnv × Verdict)) (w : World)
+    (hWF : SchemaWF2 s) (hreq : ConformsRequest s w.q) (hst : StoreConforms s w.es) (hact : ActionsPresent s w.es)
+    (hf : ∀ env, InFragment2 env cond = true)
+    (hcp : checkPolicy .strict s .absent .absent cond = some vs) (himp : impossible vs = true) :
+    w.eval cond ≠ .ok (.prim (.bool true)) := by
+  obtain ⟨env, hmem, henv, hp, hr⟩ := conformant_request_env hreq
+  have hsl : SlotsMatch env w.sl := ⟨fun t ht => (by rw [hp] at ht; cases ht), fun t ht => (by rw [hr] at ht; cases ht)⟩
+  obtain ⟨v, hv, hvm⟩ := checkPolicy_mem hcp hmem
+  have hff : v = .ff := by
+    have := List.all_eq_true.mp himp _ hvm
+    simpa using this
+  subst hff
+  exact typed_false_never_satisfied2 s env w hWF henv hreq hst hact hsl cond (hf env) hv
+
 /-! ### non-vacuity of the second fragment: ALL hypotheses of `typeOf_sound_partial2` instantiated
 
 `entity Group; entity User in [Group] { age?: Long, name: String } tags String;
@@ -431,6 +475,14 @@ action entities, slots, capabilities) holds for it -/
 example : (∃ b, ex2World.eval ex2Cond = .ok (.prim (.bool b))) ∨ (∃ err, ex2World.eval ex2Cond = .error err ∧ Permitted err) :=
   accepted_boolean_or_permitted_error2 ex2Schema ex2Env ex2World ex2_schemaWF ex2_envMatches ex2_request ex2_store
     ex2_actions ex2_slots ex2Cond (by decide +kernel) .bool (by decide +kernel) (by decide)
+/-- the policy-level theorem on a slot-free condition: `checkPolicy` lists the single environment of the schema -/
+def ex2Static : Expr :=
+  .and (.binaryApp .mem principal (.var .resource))
+  (.and (.binaryApp .hasTag principal ex2Team) (.like (.binaryApp .getTag principal ex2Team) [.char 'b', .star]))
+example : (∃ b, ex2World.eval ex2Static = .ok (.prim (.bool b))) ∨ (∃ err, ex2World.eval ex2Static = .error err ∧ Permitted err) :=
+  strict_validation_sound_static ex2Schema ex2Static
+    [(⟨"User", ⟨"Action", "view"⟩, "Group", ex2View.context, none, none⟩, .bool)] ex2World ex2_schemaWF ex2_request ex2_store ex2_actions
+    (fun _ => rfl) rfl rfl
 /-- `False` from the hierarchy: a `Group` is never in a `User`; `True` from the action hierarchy: `view` is in `read` -/
 example : checkEnv .strict ex2Schema ex2Env (.binaryApp .mem (.var .resource) principal) = some .ff := by decide +kernel
 example : checkEnv .strict ex2Schema ex2Env (.binaryApp .mem (.var .action) (.lit (.entityUID ⟨"Action", "read"⟩))) = some .tt := by
